@@ -140,7 +140,7 @@ def run(spec):
 
 
 def plan(tier, seed):
-    specs = sweep.plan(tier, seed, scale=0.25 if tier == "quick" else 0.3)
+    specs = sweep.plan(tier, seed, scale=0.25 if tier == "quick" else 0.15)
     if tier == "quick":
         specs += [("byteflow", s, 16, 12) for s in range(16)]
     else:
